@@ -64,6 +64,7 @@ Judge(e) ==
     [] e.op = "parse" ->
          IF e.res # "ok" THEN "ParseRaised"
          ELSE IF ~(T4(e.before) \subseteq T4(e.after)) THEN "AddOnly"
+         ELSE IF Has(e, "addonly") /\ e.addonly THEN "ok"      \* a quad document parsed through a graph view: where its quads go is not fixed by the property
          ELSE IF ParseOK(T4(e.before), T4(e.doc), T4(e.after)) THEN "ok" ELSE "MergeFresh"
     [] OTHER -> "UnknownEvent"
 
